@@ -11,9 +11,9 @@ TRUST = ("Trusted base: the Go type checker and go/ssa (x/tools v0.29.0) as a fa
 # id -> (technique, level text, level_note, design_ref)
 CLAIMED = {
     "C09": (
-        "struct-tag agreement over the type graph + codec dispatch (decoded guards, expressions) + encoder/decoder language-compatibility table with abstract byte-interval evaluation of the repository's own JSON sanitiser",
+        "struct-tag agreement over the type graph + codec dispatch (decoded guards, expressions) + encoder/decoder language-compatibility table; interval-set abstract evaluation of the YAML reader's own code-point range check (dependency source) and of the repository's JSON sanitiser loop",
         "THIN claim: decides three necessary conditions only - json/yaml member names and omitempty agree on all 37 fields reachable from Spec with stable leaf kinds; write() picks yaml.v3 for .yaml and encoding/json otherwise for the same value while one decoder reads every file; "
-        "and for each extension the reader's decoder accepts the writer's output language (for .json this holds only because the output passes through escapeJSONForYAML, whose loop is evaluated over byte intervals to show that neither 0x7f nor 0xc2 0x80..0x9f is ever copied unescaped). "
+        "and for each extension the reader's decoder accepts the writer's output language (for .json this holds only because the output passes through escapeJSONForYAML, whose rune loop is evaluated over interval sets to show that no code point the reader refuses or folds - the refused set is itself evaluated from goyaml.v2's range check: U+007F-U+009F, U+FFFE, U+FFFF among what encoding/json leaves raw - is copied unescaped, that \\u%04x is applied only up to U+FFFF, and that no path returns the input itself). "
         "The core of the property (every string through two third-party YAML libraries) is not decidable statically.",
         TRUST + "yaml.v3 -> go-yaml v2 compatibility for the leaf kinds is assumed, not checked. Does NOT decide the round trip over the string space.",
         "DESIGN.md §4 C09"),
